@@ -1,5 +1,5 @@
 (* C14 - separate row and column filters act on the axis they are named for. *)
-From PW Require Import Base.Ops Base.Sum Base.Sig Base.Tensor Model.Dwt Spec.Line Proofs.DwtNF Proofs.C01Proofs.
+From PW Require Import Base.Ops Base.Sum Base.Sig Base.Tensor Model.Dwt Spec.Line Proofs.DwtNF Proofs.SfbNF Proofs.C01Proofs Proofs.C01Proofs2D Proofs.C10Proofs2D.
 
 (* the Function used by DWTForward is the library's functional bank with the same four filters, split into bands *)
 Theorem C14_forward_is_functional :
@@ -30,3 +30,39 @@ Proof.
   destruct (afb1d Op x Lr _ _ mode 3); [|contradiction]. cbn [is_ok] in *. tauto.
 Qed.
 Print Assumptions C14_row_pair_on_last_axis.
+
+(* the whole level: the COLUMN pair (dc0, dc1) acts along the rows axis H and the ROW pair (dr0, dr1) along the last axis W -
+   PyWavelets' dwt2 with one wavelet per axis; different lengths Lr, Lc are allowed (the output is ((H+Lc-1)/2, (W+Lr-1)/2)) *)
+Theorem C14_forward_per_axis :
+  forall (R:Type) (Op:Ops R) (Rth:RingOk Op) (x:@ten R) Lr dr0 dr1 Lc dc0 dc1 mode,
+  2 <= Lr -> 2 <= Lc -> 1 <= tW x -> 1 <= tH x -> 0 < tC x ->
+  level_ok mode Lr (tW x) -> level_ok mode Lc (tH x) -> (mode = M_REFLECT -> 2 <= tW x /\ 2 <= tH x) ->
+  is_ok (AFB2D_fwd Op x Lr (rev_filt Lr dr0) (rev_filt Lr dr1) Lc (rev_filt Lc dc0) (rev_filt Lc dc1) mode)
+    (fun r => let '(low, highs) := r in
+       tH low = (tH x + Lc - 1)/2 /\ tW low = (tW x + Lr - 1)/2 /\
+       forall n c i j, 0 <= c < tC x -> 0 <= i < (tH x + Lc - 1)/2 -> 0 <= j < (tW x + Lr - 1)/2 ->
+         tf low n c i j = pywt_dwt2 Op mode Lr dr0 Lc dc0 (tH x) (tW x) (fun p q => tf x n c p q) i j).
+Proof.
+  intros R Op Rth x Lr dr0 dr1 Lc dc0 dc1 mode H1 H2 H3 H4 H5 H6 H7 H8.
+  pose proof (AFB2D_pywt Op Rth x Lr dr0 dr1 Lc dc0 dc1 mode H1 H2 H3 H4 H5 H6 H7 H8) as H.
+  destruct (AFB2D_fwd Op x Lr _ _ Lc _ _ mode) as [[low highs]|]; [|contradiction]. cbn [is_ok] in *.
+  destruct H as (A1 & A2 & A3 & A4 & A5 & A6 & A7 & A8 & A9). repeat split; auto.
+  intros n c i j Hc Hi Hj. apply (A9 n c i j Hc Hi Hj).
+Qed.
+Print Assumptions C14_forward_per_axis.
+Theorem C14_inverse_per_axis :
+  forall (R:Type) (Op:Ops R) (Rth:RingOk Op) (low highs:@ten R) Lr gr0 gr1 Lc gc0 gc1 mode, nonper_mode mode ->
+  tN highs = tN low -> tC highs = 3 * tC low -> tH highs = tH low -> tW highs = tW low ->
+  2 <= Lr -> 2 <= Lc -> 0 < tC low -> 1 <= tW low -> 1 <= tH low -> 1 <= 2 * tH low - Lc + 2 -> 1 <= 2 * tW low - Lr + 2 ->
+  is_ok (SFB2D_fwd Op low highs Lr gr0 gr1 Lc gc0 gc1 mode)
+    (fun y => tH y = 2 * tH low - Lc + 2 /\ tW y = 2 * tW low - Lr + 2 /\
+       forall n c i j, 0 <= c < tC low -> 0 <= i < 2 * tH low - Lc + 2 -> 0 <= j < 2 * tW low - Lr + 2 ->
+         tf y n c i j = pywt_idwt2 Op Lr gr0 gr1 Lc gc0 gc1 (tH low) (tW low)
+                          (fun p q => tf low n c p q) (fun p q => tf highs n (3*c) p q)
+                          (fun p q => tf highs n (3*c+1) p q) (fun p q => tf highs n (3*c+2) p q) i j).
+Proof.
+  intros R Op Rth low highs Lr gr0 gr1 Lc gc0 gc1 mode Hm E1 E2 E3 E4 H1 H2 H3 H4 H5 H6 H7.
+  pose proof (SFB2D_pywt Op Rth low highs Lr gr0 gr1 Lc gc0 gc1 mode Hm E1 E2 E3 E4 H1 H2 H3 H4 H5 H6 H7) as H.
+  destruct (SFB2D_fwd Op low highs Lr gr0 gr1 Lc gc0 gc1 mode) as [y|]; [|contradiction]. cbn [is_ok] in *. tauto.
+Qed.
+Print Assumptions C14_inverse_per_axis.
